@@ -1,5 +1,5 @@
-\* quick: every (old, new) pair of iauth_xquery sections over {a.svc, b.svc} x {login, login-ipr, dronecheck, combined,
-\* bogus, absent} (36 sections, 1 296 pairs), earlier client on, one reload at any point of its activity, scripted probe
+\* thorough: every pair over two names x {login, dronecheck, bogus, absent}; FREE probe environment (every order of the data
+\* items, well- and ill-shaped passwords, every reply kind, timeout, disconnect)
 \* (checks/c17.py writes the same text with its own EmitMod / KeepOld)
 CONSTANTS
   Services <- NoServices
@@ -10,10 +10,10 @@ CONSTANTS
   EmitMod = 0
   NameOrder <- Names2
   RBug <- RB_none
-  TypeWords <- Words5
+  TypeWords <- Words3
   MaxRl = 1
-  PreOn = TRUE
-  Free = FALSE
+  PreOn = FALSE
+  Free = TRUE
   KeepOld = FALSE
 INIT RInit
 NEXT RNext
